@@ -3138,7 +3138,7 @@ class FreezeCurrentStateResponse(
         )
 
     def matches(self, request: UDSRequest) -> bool:
-        return super().matches(request) and isinstance(request, FreezeCurrentStateResponse)
+        return super().matches(request) and isinstance(request, FreezeCurrentStateRequest)
 
 
 class FreezeCurrentStateRequest(
